@@ -95,15 +95,24 @@ def r1(ctx, magic):
         ctx.check('R1', 'len-before-marker', f.ev_dominates(ev, pub) and not f.may_follow(pub, ev), ev,
                   'length store precedes the marker publication on every path',
                   'length store %r is not ordered before the marker publication' % ev)
+    # once the chunk is published the reader may consume it and scrub its header: the writer must not read the ring any more
+    # (in particular the new write position, which is computed from the chunk's length word, is computed before) ...
+    late_reads = [ev for ev in f.events() if f.may_follow(pub, ev) and
+                  ((ev.kind == 'LOAD' and is_shared_data_idx(ev.e)) or (ev.kind == 'CALL' and ev.callee in ('qb_rb_chunk_step',)) or
+                   (ev.kind == 'CALL' and is_marker_get(ev.e)))]
     for ev in wps:
-        ctx.check('R1', 'write_pt-before-marker', f.ev_dominates(ev, pub) and not f.may_follow(pub, ev), ev,
-                  'write_pt store precedes the marker publication on every path',
-                  'write_pt store is not ordered before the marker publication (reader could see the chunk before the index moves)')
-    # nothing shared is stored after the publication
-    after = [ev for ev in f.events() if shared_store(ev) and ev is not pub and f.may_follow(pub, ev)]
-    ctx.check('R1', 'no-shared-store-after', not after, after[0] if after else pub,
-              'no store to shared_data/shared_hdr after the publication',
-              'shared store after the marker publication: %r' % (after[0] if after else None))
+        ctx.check('R1', 'new-position-computed-before-publication', not late_reads, late_reads[0] if late_reads else ev,
+                  'the value stored into write_pt is computed (chunk length read) before the marker publication',
+                  'the ring is read after the marker publication (%r): the reader may already have consumed the chunk and cleared its length word, '
+                  'the new write position is then computed from garbage' % (late_reads[0] if late_reads else None))
+    # ... and must not write ring words any more either (the index store itself may be on either side of the publication:
+    # the reader never looks at write_pt)
+    after = [ev for ev in f.events() if shared_store(ev) and ev is not pub and f.may_follow(pub, ev) and not
+             (ev.kind == 'STORE' and last_field(ev.lhs) == ('qb_ringbuffer_shared_s', 'write_pt'))]
+    ctx.check('R1', 'no-ring-store-after-publication', not after, after[0] if after else pub,
+              'no store to the ring words after the publication',
+              'ring words are stored after the marker publication (%r): the reader may already be looking at them (a scrub of the next header that comes too late '
+              'lets stale payload pass for a chunk)' % (after[0] if after else None))
     posts = [ev for ev in f.events('CALL') if ev.callee == 'qb_rb_notifier::post_fn']
     if not posts:
         raise AnalysisBroken('qb_rb_chunk_commit: no post_fn call')
